@@ -749,4 +749,126 @@ theorem resolve_congr (L : Lattice) (T : PTy → Prop) (layers : List Layer) {c 
     obtain ⟨l, hl, hfl, _⟩ := visible_mem hlv hfd
     exact hT l (reach_sub _ l hl) fd hfl
 
+/-! ## (a) resolution depends on argument values only through their kinds -/
+
+/-- two evaluated values of the same kind: both `None`, or the same class and the same validators passed -/
+def SameKindV : Val → Val → Prop
+  | .none, .none => True
+  | .obj c ps _, .obj c' ps' _ => c = c' ∧ ps = ps'
+  | _, _ => False
+
+/-- the same argument expression up to the values involved, which only have the same KIND (identity tags, and so
+    the values themselves, are free) -/
+inductive SameKind : Arg → Arg → Prop
+  | noValue : SameKind .noValue .noValue
+  | const {v v' : Val} {lit : Lit} {kw : Option Name} {ek : Nat} (h : SameKindV v v') :
+      SameKind (.const v lit kw ek) (.const v' lit kw ek)
+  | expr {ek p : Nat} {ur : Bool} {r r' : Val} (h : SameKindV r r') : SameKind (.expr ek p ur r) (.expr ek p ur r')
+  | mapRule {s d s' d' : Arg} {r r' : Val} {ek : Nat} (hs : SameKind s s') (hd : SameKind d d') (h : SameKindV r r') :
+      SameKind (.mapRule s d r ek) (.mapRule s' d' r' ek)
+  | value {v v' : Val} (h : SameKindV v v') : SameKind (.value v) (.value v')
+
+theorem checkPyVal_sameKind (L : Lattice) (pc : PyCls) (n : Bool) (vs : List Nat) {v v' : Val} (h : SameKindV v v') :
+    checkPyVal L pc n vs v = checkPyVal L pc n vs v' := by
+  cases v <;> cases v' <;> simp_all [SameKindV, checkPyVal]
+
+theorem check_value_sameKind (L : Lattice) (t : PTy) {v v' : Val} (h : SameKindV v v') :
+    check L t (.value v) = check L t (.value v') := by
+  cases t <;> simp only [check, Arg.ekind]
+  · exact checkPyVal_sameKind L _ _ _ h
+  · cases v <;> cases v' <;> simp_all [SameKindV]
+
+theorem SameKind.check_eq (L : Lattice) (t : PTy) {a b : Arg} (h : SameKind a b) : check L t a = check L t b := by
+  cases h with
+  | noValue => rfl
+  | @const v v' lit kw ek hv =>
+      cases t <;> cases kw <;> simp only [check, Arg.ekind] <;> first | exact checkPyVal_sameKind L _ _ _ hv | rfl
+  | expr _ => cases t <;> simp only [check, Arg.ekind]
+  | mapRule _ _ _ => cases t <;> simp only [check, Arg.ekind]
+  | value hv => exact check_value_sameKind L t hv
+
+theorem SameKind.evalLog_eq : ∀ {a b : Arg}, SameKind a b → a.evalLog = b.evalLog
+  | _, _, .noValue => rfl
+  | _, _, .const _ => rfl
+  | _, _, .expr _ => rfl
+  | _, _, .value _ => rfl
+  | _, _, .mapRule hs hd _ => by simp only [Arg.evalLog, hs.evalLog_eq, hd.evalLog_eq]
+
+theorem SameKind.kwName_eq {a b : Arg} (h : SameKind a b) : kwName a = kwName b := by
+  cases h with
+  | @const v v' lit kw ek hv => cases kw <;> rfl
+  | _ => rfl
+
+theorem SameKind.core (L : Lattice) (T : PTy → Prop) {a b : Arg} (h : SameKind a b) : Core L T a b := by
+  refine ⟨?_, ?_, h.evalLog_eq, fun t _ => h.check_eq L t, fun t _ => ?_⟩
+  · cases h <;> rfl
+  · cases h <;> rfl
+  · cases h with
+    | noValue => rfl
+    | const hv => exact (SameKind.const hv).check_eq L t
+    | expr hv => exact check_value_sameKind L t hv
+    | mapRule _ _ hv => exact check_value_sameKind L t hv
+    | value hv => exact check_value_sameKind L t hv
+
+theorem SameKind.sim (L : Lattice) (T : PTy → Prop) : ∀ {a b : Arg}, SameKind a b → Sim L T a b
+  | _, _, .noValue => .plain (SameKind.noValue.core L T) rfl rfl
+  | _, _, .const h => .plain ((SameKind.const h).core L T) rfl rfl
+  | _, _, .expr h => .plain ((SameKind.expr h).core L T) rfl rfl
+  | _, _, .value h => .plain ((SameKind.value h).core L T) rfl rfl
+  | _, _, .mapRule hs hd h => .rule ((SameKind.mapRule hs hd h).core L T) hs.kwName_eq (hd.sim L T)
+
+/-- **(a)** for every class graph, layer chain and call: replacing every value that occurs in the call (the receiver,
+    literal constants, the results of argument expressions, evaluated mapping rules, keyword values) by ANY value of the
+    same class that passes the same validators changes neither the overload chosen, nor the error class, nor the
+    arguments evaluated -/
+theorem resolve_kinds (L : Lattice) (layers : List Layer) {c c' : Call}
+    (hargs : Forall₂ SameKind (callArgs c) (callArgs c'))
+    (hkw : Forall₂ (fun x y => x.1 = y.1 ∧ SameKind x.2 y.2) c.kwargs c'.kwargs)
+    (hrecv : c.receiver.isSome = c'.receiver.isSome) :
+    (resolve L layers c).choice = (resolve L layers c').choice :=
+  resolve_congr L (fun _ => True) layers
+    ⟨hargs.imp fun _ _ h => h.sim L _, hkw.imp fun _ _ h => ⟨h.1, h.2.sim L _⟩, hrecv⟩
+    (fun _ _ _ _ _ _ => trivial)
+
+/-! ## the call shapes of the reference interpreter (`Model/EvalDispatch.lean`) -/
+
+open Yaql.EvalDispatch
+
+theorem toArgP_isRule (U : Universe) (p : Nat) (a : AShape) : isRule (toArgP U p a) = a.isRule := by
+  cases a <;> rfl
+
+theorem toArgP_noValue (U : Universe) (p : Nat) (a : AShape) : (toArgP U p a).isNoValue = false := by
+  cases a <;> rfl
+
+theorem toArgP_evaluable (U : Universe) (p q : Nat) (a : AShape) :
+    (toArgP U p a).evaluable = (toArgP U q a).evaluable := by
+  cases a <;> rfl
+
+theorem toArgP_log (U : Universe) (p : Nat) (a : AShape) (h : a.isRule = false) :
+    (toArgP U p a).evalLog = if (toArgP U p a).evaluable then [p] else [] := by
+  cases a <;> first | rfl | simp [AShape.isRule] at h
+
+theorem toArgP_check (U : Universe) (t : PTy) (p q : Nat) (a : AShape) (h : a.isRule = false) :
+    check U.L t (toArgP U p a) = check U.L t (toArgP U q a) ∧
+    check U.L t (toArgP U p a).evaluated = check U.L t (toArgP U q a).evaluated := by
+  cases a <;> first | (cases t <;> exact ⟨rfl, rfl⟩) | (simp [AShape.isRule] at h)
+
+/-- shapes that look alike to the parameter types `ts` give similar arguments -/
+theorem obs_sim (U : Universe) (ts : List PTy) (p : Nat) {a b : AShape} (ha : a.isRule = false)
+    (h : obs U ts a = obs U ts b) : Sim U.L (· ∈ ts) (toArgP U p a) (toArgP U p b) := by
+  simp only [obs, Prod.mk.injEq] at h
+  obtain ⟨hpre, hpost, hev, hrule⟩ := h
+  have hb : b.isRule = false := by rw [← hrule]; exact ha
+  have hev' : (toArgP U p a).evaluable = (toArgP U p b).evaluable := by
+    rw [toArgP_evaluable U p 1 a, toArgP_evaluable U p 1 b]; exact hev
+  refine .plain ⟨?_, hev', ?_, ?_, ?_⟩ (by rw [toArgP_isRule]; exact ha) (by rw [toArgP_isRule]; exact hb)
+  · rw [toArgP_noValue, toArgP_noValue]
+  · rw [toArgP_log U p a ha, toArgP_log U p b hb, hev']
+  · intro t ht
+    rw [(toArgP_check U t p 1 a ha).1, (toArgP_check U t p 1 b hb).1]
+    exact List.map_inj_left.1 hpre t ht
+  · intro t ht
+    rw [(toArgP_check U t p 1 a ha).2, (toArgP_check U t p 1 b hb).2]
+    exact List.map_inj_left.1 hpost t ht
+
 end Yaql.Props.C04Dispatch
